@@ -93,9 +93,12 @@ class Evaluator:
         try:
             value = cell.formula.ast.eval(context)
         except Exception as err:
+            # The text of a nested evaluation problem is taken as it is:
+            # repr() quotes it again on every level, which doubles its size.
+            detail = str(err) if isinstance(err, RuntimeError) else repr(err)
             raise RuntimeError(
                 f"Problem evaluating cell {addr} formula "
-                f"{cell.formula.formula}: {repr(err)}"
+                f"{cell.formula.formula}: {detail}"
             ).with_traceback(sys.exc_info()[2])
         finally:
             self._evaluating.pop()
